@@ -116,6 +116,48 @@ pub fn c02(cx: &mut Ctx) {
             cx.op("proceed");
         }
     }
+    // (a2) a header line longer than any scratch buffer a writer might use (1100 and 5000 bytes), as the LAST
+    // line of the head: buffers of exactly the line, the line + 1, + 2 (the blank line fits only then), + 3
+    for vlen in [1100usize, 5000] {
+        for pos_last in [true, false] {
+            let long: Vec<u8> = (0..vlen).map(|i| b'a' + (i % 26) as u8).collect();
+            let orig: Vec<(&str, &[u8])> = if pos_last { vec![("x-a", b"1"), ("x-long", &long)] } else { vec![("x-long", &long), ("x-a", b"1")] };
+            let line_len = "x-long: ".len() + vlen + 2;
+            for first in [0usize, 19, 30] {
+                for delta in 0..6usize {
+                    cx.case("longlast");
+                    cx.rec.new_flow(&format!("GET HTTP/1.1 http://a.test/p {}", super::hdrs(&orig)));
+                    cx.op("proceed");
+                    // a first buffer that takes the request line (19 bytes) or that and the host line, then the probe
+                    if first > 0 { cx.op(&format!("write {}", first)); }
+                    for _ in 0..3 { cx.op(&format!("write {}", line_len + delta - 2)); }
+                    cx.op("canproceed");
+                    cx.op("write 8000");
+                    cx.op("canproceed");
+                    cx.op("proceed");
+                }
+            }
+        }
+    }
+    // (a3) Transfer-Encoding on several lines, chunked not on the first: the caller's framing is recognised once
+    for (m, despite) in [("POST", false), ("PUT", false), ("GET", true)] {
+        for (oi, orig) in [vec![("transfer-encoding", &b"gzip"[..]), ("transfer-encoding", &b"chunked"[..])],
+                           vec![("transfer-encoding", &b"gzip"[..]), ("x-a", &b"1"[..]), ("transfer-encoding", &b"Chunked"[..])],
+                           vec![("transfer-encoding", &b"chunked"[..])]].iter().enumerate() {
+            for added_first in [false, true] {
+                cx.case("multite");
+                let _ = oi;
+                cx.rec.new_flow(&format!("{} HTTP/1.1 http://a.test/p {}", m, super::hdrs(orig)));
+                if added_first { cx.op(&format!("hdr transfer-encoding {}", hx(b"gzip"))); }
+                if despite { cx.op("despite"); }
+                cx.op("proceed");
+                cx.op("write 30");
+                cx.op("write 4096");
+                cx.op("canproceed");
+                cx.op("proceed");
+            }
+        }
+    }
     // (b) random requests, random schedules, redirect depth 0..3
     let n = if cx.thorough { 6000 } else { 700 };
     for i in 0..n {
@@ -178,6 +220,60 @@ pub fn c02(cx: &mut Ctx) {
         }
         cx.op("cfinished");
     }
+    // the size ladder over every length of a request head: header value, header name, target, number of headers
+    for l in super::ladder(cx.thorough, 131072) {
+        let val: Vec<u8> = (0..l).map(|i| b'a' + (i % 26) as u8).collect();
+        for last in [false, true] {
+            cx.case("ladv");
+            let orig: Vec<(&str, &[u8])> = if last { vec![("x-a", b"1"), ("x-l", &val)] } else { vec![("x-l", &val), ("x-a", b"1")] };
+            if cx.rec.new_flow(&format!("GET HTTP/1.1 http://a.test/p {}", super::hdrs(&orig))) != "ok" { continue; }
+            cx.op("proceed");
+            let line = 5 + l + 2;
+            // one byte short of the long line, exactly the line, then everything
+            cx.op(&format!("write {}", 40));
+            cx.op(&format!("write {}", line - 1));
+            cx.op(&format!("write {}", line));
+            cx.op("canproceed");
+            cx.op("write 300000");
+            cx.op("canproceed");
+            cx.op("proceed");
+        }
+        if l >= 1 && l <= 32768 {
+            cx.case("ladn");
+            let name: String = (0..l).map(|i| (b'a' + (i % 26) as u8) as char).collect();
+            if cx.rec.new_flow(&format!("GET HTTP/1.1 http://a.test/p {}", super::hdrs(&[(&name, b"v"), ("x-a", b"1")]))) == "ok" {
+                cx.op("proceed");
+                cx.op(&format!("write {}", l + 4));
+                cx.op(&format!("write {}", l + 5));
+                cx.op("write 300000");
+                cx.op("canproceed");
+                cx.op("proceed");
+            }
+        }
+        if l <= 65000 {
+            cx.case("ladt");
+            let path: String = (0..l).map(|i| (b'a' + (i % 26) as u8) as char).collect();
+            for uri in [format!("http://a.test/{}", path), format!("http://a.test/p?{}", path)] {
+                if cx.rec.new_flow(&format!("GET HTTP/1.1 {} 1 x-a 31", uri)) != "ok" { continue; }
+                cx.op("proceed");
+                cx.op(&format!("write {}", l + 10));
+                cx.op("write 300000");
+                cx.op("canproceed");
+                cx.op("proceed");
+            }
+        }
+        if l <= 2049 {
+            cx.case("ladc");
+            let hs: Vec<(String, Vec<u8>)> = (0..l).map(|k| (format!("x-h{}", k), vec![b'0' + (k % 10) as u8])).collect();
+            let hr: Vec<(&str, &[u8])> = hs.iter().map(|(k, v)| (k.as_str(), v.as_slice())).collect();
+            if cx.rec.new_flow(&format!("GET HTTP/1.1 http://a.test/p {}", super::hdrs(&hr))) != "ok" { continue; }
+            cx.op("proceed");
+            cx.op("write 64");
+            cx.op("write 300000");
+            cx.op("canproceed");
+            cx.op("proceed");
+        }
+    }
 }
 
 pub fn c16(cx: &mut Ctx) {
@@ -216,6 +312,41 @@ pub fn c16(cx: &mut Ctx) {
         let cap = if r.chance(1, 3) { r.range(40, 120) } else { 65536 };
         write_schedule(cx, &mut || cap, 0);
         cx.op("proceed");
+    }
+    // the size ladder over what a caller may add: value length, name length, number of added headers
+    for l in super::ladder(cx.thorough, 131072) {
+        cx.case("ladv");
+        if cx.rec.new_flow("GET HTTP/1.1 http://a.test/p 2 x-o 31 cookie 6f3d31") != "ok" { continue; }
+        let val: Vec<u8> = (0..l).map(|i| b'a' + (i % 26) as u8).collect();
+        cx.op(&format!("hdr x-first {}", hx(b"1")));
+        cx.op(&format!("hdr x-long {}", hx(&val)));
+        cx.op(&format!("hdr x-last {}", hx(b"2")));
+        cx.op("proceed");
+        cx.op("write 64");
+        cx.op(&format!("write {}", l + 10));
+        cx.op("write 300000");
+        cx.op("canproceed");
+        cx.op("proceed");
+        if l >= 1 && l <= 32768 {
+            cx.case("ladn");
+            if cx.rec.new_flow("GET HTTP/1.1 http://a.test/p 1 x-o 31") != "ok" { continue; }
+            let name: String = (0..l).map(|i| (b'a' + (i % 26) as u8) as char).collect();
+            cx.op(&format!("hdr {} {}", name, hx(b"v")));
+            cx.op(&format!("hdr x-last {}", hx(b"2")));
+            cx.op("proceed");
+            cx.op("write 300000");
+            cx.op("canproceed");
+            cx.op("proceed");
+        }
+        if l <= 60 {
+            cx.case("ladc");
+            if cx.rec.new_flow("GET HTTP/1.1 http://a.test/p 1 x-o 31") != "ok" { continue; }
+            for k in 0..l { if cx.op(&format!("hdr x-a{} {}", k, hx(&[b'0' + (k % 10) as u8]))) != "unit" { break; } }
+            cx.op("proceed");
+            cx.op("write 300000");
+            cx.op("canproceed");
+            cx.op("proceed");
+        }
     }
 }
 
@@ -306,6 +437,52 @@ pub fn c17(cx: &mut Ctx) {
                     cx.op("canproceed");
                     cx.op("proceed");
                 }
+            }
+        }
+    }
+    // a method that takes no body, sent with one at the caller's wish (Content-Length on the original request),
+    // redirected with the method kept (307 / 308) or rewritten (301 / 302 / 303): the follow-up request is an
+    // ordinary bodiless one unless the caller says otherwise again
+    for m in ["GET", "HEAD", "OPTIONS", "DELETE", "TRACE"] {
+        for status in [301u16, 302, 303, 307, 308] {
+            for (vi, cl) in ["4", "0"].iter().enumerate() {
+                for despite2 in [false, true] {
+                    cx.case("keep");
+                    let _ = vi;
+                    let hs: Vec<(&str, &[u8])> = vec![("x-a", b"1"), ("content-length", cl.as_bytes())];
+                    if cx.rec.new_flow(&format!("{} HTTP/1.1 http://a.test/o {}", m, super::hdrs(&hs))) != "ok" { continue; }
+                    cx.op("despite");
+                    let mut r = Rng::for_case(cx.seed, 1800 + status as u64);
+                    if !hop(cx, &mut r, status, "/next") || cx.rec.state() != "prepare" { continue; }
+                    if despite2 { cx.op("despite"); }
+                    cx.op("proceed");
+                    cx.op("write 1000");
+                    cx.op("canproceed");
+                    cx.op("write 1000");
+                    cx.op("canproceed");
+                    cx.op("proceed");
+                }
+            }
+        }
+    }
+    // the size ladder: a Content-Length written with leading zeros, the second Host / Content-Length far behind
+    // the first, a long run of other headers in front of the framing header
+    for l in super::ladder(cx.thorough, 2048) {
+        let zeros: Vec<u8> = std::iter::repeat(b'0').take(l).chain(std::iter::once(b'7')).collect();
+        for m in ["POST", "GET"] {
+            cx.case("ladz");
+            if cx.rec.new_flow(&format!("{} HTTP/1.1 http://a.test/x {}", m, super::hdrs(&[("content-length", &zeros)]))) != "ok" { continue; }
+            cx.op("proceed"); cx.op("write 300000"); cx.op("canproceed"); cx.op("write 300000"); cx.op("canproceed"); cx.op("proceed");
+        }
+        for (first, second) in [("host", "host"), ("content-length", "content-length"), ("x-none", "content-length"), ("x-none", "transfer-encoding")] {
+            for m in ["POST", "GET"] {
+                cx.case("ladfar");
+                let mut hs: Vec<(String, Vec<u8>)> = vec![(first.to_string(), b"7".to_vec())];
+                for k in 0..l { hs.push((format!("x-f{}", k), b"v".to_vec())); }
+                hs.push((second.to_string(), if second == "transfer-encoding" { b"chunked".to_vec() } else { b"7".to_vec() }));
+                let hr: Vec<(&str, &[u8])> = hs.iter().map(|(k, v)| (k.as_str(), v.as_slice())).collect();
+                if cx.rec.new_flow(&format!("{} HTTP/1.1 http://a.test/x {}", m, super::hdrs(&hr))) != "ok" { continue; }
+                cx.op("proceed"); cx.op("write 300000"); cx.op("canproceed"); cx.op("write 300000"); cx.op("canproceed"); cx.op("proceed");
             }
         }
     }
